@@ -570,6 +570,11 @@ class Deep:
                 if r[0] == "variant" and r[2] == "Err":
                     return cont(st, self.err(("conv", r[3][0])))
                 return cont(st, self.err(("conv", ("field", ("as", r, "Err"), 0))))
+        if re.search(r"::checked_sub$", path) and len(args) == 2 and not f.get("local"):
+            # unsigned `a.checked_sub(b)`: None iff a < b
+            def done(s2, lt):
+                cont(s2, self.NONE if lt else self.some(self.binop("Sub", args[0], args[1])))
+            return self._bool(st, self.binop("Lt", args[0], args[1]), done)
         m = COMB.match(path)
         if m and (not self.opaque or not self.opaque.search(path)):
             h = getattr(self, "c_" + m.group(1).lower() + "_" + m.group(2), None)
@@ -1009,7 +1014,18 @@ CANON_NEG = {"Ne": "Eq", "Ge": "Lt", "Gt": "Le"}
 def canon_atom(atom, val):
     """Canonical form of a boolean condition: comparisons are expressed with Eq / Lt / Le only."""
     if isinstance(val, bool) and atom[0] == "bin" and atom[1] in CANON_NEG:
-        return ("bin", CANON_NEG[atom[1]], atom[2], atom[3]), (not val)
+        atom, val = ("bin", CANON_NEG[atom[1]], atom[2], atom[3]), (not val)
+    # comparisons of an (unsigned) quantity with 0 / 1 — `x < 1`, `x <= 0`, `0 == x` — are `x == 0`
+    if isinstance(val, bool) and atom[0] == "bin":
+        op, a, b = atom[1], atom[2], atom[3]
+        if op == "Lt" and b == ("const", 1) or op == "Le" and b == ("const", 0):
+            atom = ("bin", "Eq", a, ("const", 0))
+        elif op == "Lt" and a == ("const", 0):          # 0 < x  ==  !(x == 0)
+            atom, val = ("bin", "Eq", b, ("const", 0)), (not val)
+        elif op == "Le" and a == ("const", 1):          # 1 <= x ==  !(x == 0)
+            atom, val = ("bin", "Eq", b, ("const", 0)), (not val)
+        elif op == "Eq" and a == ("const", 0):
+            atom = ("bin", "Eq", b, ("const", 0))
     return atom, val
 _BOOLP = re.compile(r"^(?:.*::)?bool::<impl bool>::(then|then_some)$")
 _ENTP = re.compile(r"^std::collections::hash_map::Entry::<.*>::(or_insert_with|or_insert)$")
